@@ -234,3 +234,32 @@ pub fn c02_swapped_caller(position: &[f64], gradient: &[f64], out: &mut [f64]) {
     c02_whiten(gradient, position, out)
 }
 
+
+// ---- C13-R15 / C05-R14: panicking extraction from the record of a density fault -----------------------------
+pub struct DivergenceInfo {
+    pub end_location: Option<Box<[f64]>>,
+    pub energy_error: Option<f64>,
+}
+
+pub fn c13_fault_record_expect(info: Option<&DivergenceInfo>) -> Option<Vec<f64>> {
+    info.filter(|d| d.energy_error.is_some()).map(|d| {
+        let end = d.end_location.as_ref();
+        end.expect("Energy divergence without end point").to_vec()
+    })
+}
+
+pub fn c13_fault_record_unwrap(d: &DivergenceInfo) -> f64 {
+    d.energy_error.unwrap()
+}
+
+pub fn c13_fault_record_guarded(d: &DivergenceInfo) -> f64 {
+    if d.energy_error.is_some() {
+        d.energy_error.unwrap()
+    } else {
+        0.0
+    }
+}
+
+pub fn c13_fault_record_total(d: &DivergenceInfo) -> f64 {
+    d.energy_error.unwrap_or(f64::NAN)
+}
